@@ -209,6 +209,45 @@ def summarise(ctx, qn, policy=default_policy, oracle=None, args=None, self_term=
     return ps
 
 
+def _generation_tag(ctx, fn, ps, table, missing):
+    """A memo whose key leaves out parameter P is still sound when the object remembers, in a tag field F, the P its entries were computed for, and empties the
+    table whenever it is asked about another P:  `if self.F != P: self.F = P; self.M.clear()`  before the table is consulted.
+    -> True (every path that consults or fills the table does so with self.F == P), a reason string (some path does not), None (no such tag field)."""
+    self_ = V('self')
+    for P in missing:
+        tags = {w.loc[2] for p in ps for w in heap_writes(p) if w.how == 'assign' and w.loc[0] == 'attr' and w.loc[1] == self_ and w.value == V(P)}
+        if len(tags) != 1:
+            return None
+        F = next(iter(tags))
+        tagt = ('attr', self_, F)
+        for p in ps:
+            eq = any(c[0] == 'cmp' and c[1] in ('==', '!=') and {c[2], c[3]} == {tagt, V(P)} and (val is (c[1] == '==')) for c, val, _ in p.conds)
+            ws = list(heap_writes(p))
+            store_at = [i for i, w in enumerate(ws) if w.loc[0] == 'sub' and w.loc[1] == table]
+            reset_at = [i for i, w in enumerate(ws) if w.loc == table and (w.how == 'mut:clear' or (w.how == 'assign' and w.value in (('dict', ()),)))]
+            retag = any(w.loc == tagt and w.value == V(P) for w in ws)
+            reset = retag and reset_at and (not store_at or reset_at[0] < store_at[0])
+            consults = bool(store_at) or any(s_[0] == 'sub' and s_[1] == table for s_ in T.subterms(p.value or T.ZERO))
+            if eq or not consults:
+                continue
+            if reset:
+                continue        # emptied first: whatever is found afterwards was put there for this P (a "hit" right after the reset cannot happen)
+            return 'on path [%s] the table is %s although self.%s may hold another %s than the one asked about' % (
+                cond_str(p)[:90], 'filled' if store_at else 'answered from', F, P)
+        # nobody else moves the tag without emptying the table
+        if fn.cls is not None:
+            for g in ctx.M.all_funcs():
+                if g.path != fn.path or g.name == '__init__' or ctx.M.ctor_only(g):
+                    continue
+                sets_tag = any(isinstance(n, ast.Attribute) and isinstance(n.ctx, ast.Store) and n.attr == F for n in ast.walk(g.node))
+                empties = any((isinstance(n, ast.Attribute) and isinstance(n.ctx, ast.Store) and n.attr == table[2]) or
+                              (isinstance(n, ast.Call) and isinstance(n.func, ast.Attribute) and n.func.attr == 'clear' and isinstance(n.func.value, ast.Attribute) and n.func.value.attr == table[2])
+                              for n in ast.walk(g.node))
+                if sets_tag and not empties:
+                    return '%s moves self.%s without emptying self.%s' % (g.qn, F, table[2])
+    return True
+
+
 def memo_tables(ctx, fn, ps):
     """Hand-rolled memoisation inside fn (paths ps): a dict field M of self with  hit: `K in self.M` -> return self.M[K]   miss: self.M[K] = V ; return V.
     -> {M: ('sound', K) | ('unsound', K, missing parameters) | ('other', reason)}.  Sound means: the stored value depends on parameters of fn only through
@@ -228,6 +267,29 @@ def memo_tables(ctx, fn, ps):
             out[m] = ('other', 'entries are updated in place (a cursor, not a memo)')
             continue
         keys = {w.loc[2] for _, w in ws}
+        # an entry computed from the entry an earlier call left under the same key (a position walked forward from where it was) is a cursor: what it holds
+        # depends on the calls made so far by design, and whether the answers still equal a fresh lookup depends on how the code rewinds it
+        walked = False
+        for i, w in ws:
+            reads_ = [w.value]
+            if any(s_ == table for t_ in reads_ if t_ is not None for s_ in T.subterms(t_)):
+                walked = True
+        if walked:
+            # ... provided the code rewinds it at all: a table nobody ever empties, pops from or rebinds after construction has no rewinding to get right
+            def _resets(g):
+                for n in ast.walk(g.node):
+                    if isinstance(n, ast.Call) and isinstance(n.func, ast.Attribute) and n.func.attr in ('clear', 'pop', 'popitem') and isinstance(n.func.value, ast.Attribute) \
+                            and n.func.value.attr == m:
+                        return True
+                    if isinstance(n, ast.Attribute) and n.attr == m and isinstance(n.ctx, (ast.Store, ast.Del)):
+                        return True
+                    if isinstance(n, ast.Delete) and any(isinstance(t_, ast.Subscript) and isinstance(t_.value, ast.Attribute) and t_.value.attr == m for t_ in n.targets):
+                        return True
+                return False
+            walked = any(_resets(g) for g in ctx.M.all_funcs() if g.path == fn.path and g.name != '__init__' and not ctx.M.ctor_only(g))
+        if walked:
+            out[m] = ('other', 'entries are advanced from their previous value (a cursor, not a memo)')
+            continue
         if len(keys) != 1:
             out[m] = ('other', 'several key shapes')
             continue
@@ -244,6 +306,13 @@ def memo_tables(ctx, fn, ps):
             missing = sorted(deps - kparams)
             fields = {s_[2] for s_ in T.subterms(w.value) if s_[0] == 'attr' and s_[1] == V('self') and s_[2] != m}
             mutable = sorted(f_ for f_ in fields if fn.cls is not None and ctx.M.field_written_outside_init(fn.cls, f_))
+            if missing:
+                pin = _generation_tag(ctx, fn, ps, table, missing)
+                if pin is True:
+                    missing = []
+                elif pin is not None:
+                    verdict = ('unsound', K, missing, pin)
+                    break
             if missing:
                 verdict = ('unsound', K, missing)
                 break
@@ -296,7 +365,7 @@ def discarded_results(ctx, rule, prefixes, what):
                       % (src_[:70], 's' if len(names_) > 1 else '', ', '.join(names_)), key='%s|late-binding|%s' % (rule, site_.split(':')[0]))
 
 
-def unread_atoms(M, got, expected=None):
+def unread_atoms(M, got, expected=None, fn=None):
     """Parts of a computed term that were not reduced to the stored fields a formula rule speaks about: calls of package functions left un-inlined, callables
     applied opaquely, and attributes that are *properties* of some package class (a stored derived figure, a projection the engine could not see through).
     A formula that differs from the expected one only through such parts has not been read; one that differs in plain fields and arithmetic has, and deviates."""
@@ -307,6 +376,9 @@ def unread_atoms(M, got, expected=None):
     props = getattr(M, '_prop_names', None)
     if props is None:
         props = {n_ for c_ in M.classes.values() for n_, m_ in c_.methods.items() if m_.is_property}
+        # a name that is a plain stored field of some class as well (Transaction.direction next to the property Position.direction) is read as that field on
+        # a receiver of unknown class - by the engine and by the expected formulas alike
+        props -= {n_ for c_ in M.classes.values() for n_ in c_.field_types}
         M._prop_names = props
     out = []
     for s_ in (T.subterms(got) if isinstance(got, tuple) else ()):
@@ -317,6 +389,13 @@ def unread_atoms(M, got, expected=None):
         elif s_[0] == 'lambda':
             out.append(s_)
         elif s_[0] == 'attr' and s_[2] in props:
+            if fn is not None and s_[1][0] == 'var':
+                # x.name where the classes x can be are known (annotation, constructor call, naming convention): a property only if it is one THERE
+                # (were it one, the engine would have read it through)
+                cs_ = [M.cls(t_) for t_ in M.expr_types(fn, ast.Name(id=s_[1][1], ctx=ast.Load()), M.local_env(fn))]
+                cs_ = [c_ for c_ in cs_ if c_ is not None]
+                if cs_ and not any(c_.lookup(s_[2]) is not None and c_.lookup(s_[2]).is_property for c_ in cs_):
+                    continue
             out.append(s_)
     return out
 
@@ -352,6 +431,12 @@ def derived_fields(M, c):
                 if not (whole or elem):
                     continue
                 fld = t.attr if whole else t.value.attr
+                if whole and (isinstance(s, ast.AugAssign) or fld in self_loads(s.value)):
+                    # a running figure updated from its own previous value (avg = (avg*qty + ...)/(qty + ...)) is state in its own right, not a function
+                    # of the other fields that whoever writes those could recompute
+                    if whole:
+                        assigned_in.setdefault(fld, set()).add(name)
+                    continue
                 deps = self_loads(s.value) - {fld}
                 if not isinstance(s.value, ast.Name):
                     deps |= {stored_param[n.id] for n in ast.walk(s.value) if isinstance(n, ast.Name) and isinstance(n.ctx, ast.Load) and n.id in stored_param} - {fld}
@@ -489,9 +574,14 @@ def split_cache_paths(ctx, fn, ps):
             misses.append(p)
     for loc, ws in written.items():
         deps = set()
+        figs = []
         for i, w, root in ws:
             deps |= {s_[2] for s_ in T.subterms(w.value) if s_[0] == 'attr' and s_[1] == self_ and s_[2] != root}
-        caches.append((loc, ws[0][2], deps))
+            cs_ = [c for c, _, _ in ps[i].conds if not any(s_ == loc or (s_[0] == 'attr' and s_[1] == self_ and s_[2] == root) for s_ in T.subterms(c))]
+            for c in cs_:
+                deps |= {s_[2] for s_ in T.subterms(c) if s_[0] == 'attr' and s_[1] == self_ and s_[2] != root}
+            figs.append((cs_, w.value))
+        caches.append((loc, ws[0][2], deps, figs))
     return misses, hits, caches
 
 
@@ -501,7 +591,8 @@ def cache_invalidation(ctx, rule, cls, caches, what):
     all instances); otherwise the ordering argument (e.g. "every fill re-marks first") is not made here -> undecided."""
     M = ctx.M
     ok_all = True
-    for loc, root, deps in caches:
+    for loc, root, deps, *rest_ in caches:
+        figs = rest_[0] if rest_ else []
         if class_level_table(M, cls, root):
             ctx.violation(rule, what, cls.path, 'the cache %s is a class attribute never rebound per instance: every %s shares it' % (root, cls.name), key='%s|cache-shared|%s' % (rule, root))
             ok_all = False
@@ -543,8 +634,50 @@ def cache_invalidation(ctx, rule, cls, caches, what):
             ctx.undecided(rule, what, cls.path, 'the cached %s is computed from %s; %s without dropping the cache in the same step - whether an earlier step always did is not decided here'
                           % (fmt(loc)[:60], sorted(deps), '; '.join(sorted(set(bad))[:3])))
         else:
-            ctx.holds(rule, what + ' (cache %s is dropped by every method that writes %s)' % (fmt(loc)[:40], sorted(deps)), cls.path)
+            # "drops it somewhere in the function" is not "drops it whenever it writes": path by path, over the public methods of the class with their private
+            # helpers read through - a path that changes something the kept figure was computed from (so that recomputing it now could give another value) and
+            # leaves the kept figure in place
+            stale = _stale_cache_paths(ctx, cls, root, deps, figs)
+            for qn_, cond_, flds_, site_ in stale[:4]:
+                ok_all = False
+                ctx.violation(rule, what, site_, '%s changes %s on path [%s] and keeps the cached %s, which was computed from %s: the next reader is handed the old figure'
+                              % (qn_, ', '.join(flds_), cond_[:120], fmt(loc)[:40], '/'.join(flds_)), key='%s|cache-stale|%s|%s' % (rule, root, qn_))
+            if not stale:
+                ctx.holds(rule, what + ' (cache %s is dropped on every path of every method that changes %s)' % (fmt(loc)[:40], sorted(deps)), cls.path)
     return ok_all
+
+
+def _stale_cache_paths(ctx, cls, root, deps, figs):
+    self_ = V('self')
+    out = []
+    for name, m in sorted(cls.methods.items()):
+        if name.startswith('_') or '@' in name or m.is_property or m.is_static or ctx.M.ctor_only(m):
+            continue
+        try:
+            ps = summarise(ctx, m.qn, policy=default_policy, max_paths=600)
+        except Undecided:
+            continue
+        for p in normal(ps):
+            ws = heap_writes(p, into_loops=False)
+            if any(loc_attr(w.loc) == root for w in ws):
+                continue
+            post = {}
+            for w in ws:
+                if w.loc[0] == 'attr' and w.loc[1] == self_ and w.loc[2] in deps and w.value is not None:
+                    post[w.loc] = w.value
+            if not post:
+                continue
+            changed = set()
+            for cs_, val in figs or [((), None)]:
+                for t in list(cs_) + ([val] if val is not None else []):
+                    t2 = T.replace(t, lambda x: post.get(x))
+                    if not same(p, t2, t):
+                        changed |= {l_[2] for l_ in post if any(s_ == l_ for s_ in T.subterms(t))}
+            if not figs:
+                changed = {l_[2] for l_ in post}
+            if changed:
+                out.append((m.qn, cond_str(p), sorted(changed), m.site()))
+    return out
 
 
 def class_level_table(M, cls, fld):
